@@ -79,6 +79,9 @@ pub const READ_BE: u32 = 51;
 pub const WRITE_LE: u32 = 52;
 pub const WRITE_BE: u32 = 53;
 pub const IDENT: u32 = 54;
+/// u128xN -> u32x4xN / u64x2xN through the `From` conversions the x86 machines declare between their vector types
+pub const INTO_W32: u32 = 55;
+pub const INTO_W64: u32 = 56;
 
 #[inline(always)]
 fn bitops0<V: BitOps0>(op: u32, a: V, b: V) -> Option<V> {
@@ -508,27 +511,62 @@ pub unsafe fn vecio<M: Machine>(m: M, ty: u32, op: u32, a: &[u8; 64], p: *mut u8
 mod x86 {
     use super::*;
     use ppv_lite86::x86_64::{AVX, AVX2, SSE2, SSE41, SSSE3};
+
+    /// conversions between the word views of one machine (bit-identical reinterpretation): u128x1/x2/x4 -> u32x4(x2,x4), u64x2(x2,x4)
+    #[inline(always)]
+    fn conv<M: Machine>(m: M, ty: u32, op: u32, a: &[u8; 64], out: &mut [u8; 256]) -> Option<u32>
+    where
+        M::u128x1: Into<M::u32x4> + Into<M::u64x2>,
+        M::u128x2: Into<M::u32x4x2> + Into<M::u64x2x2>,
+        M::u128x4: Into<M::u32x4x4> + Into<M::u64x2x4>,
+    {
+        match (ty, op) {
+            (T_U128X1, INTO_W32) => { let x: M::u128x1 = ld128(m, a); let y: M::u32x4 = x.into(); st128(y, out); }
+            (T_U128X1, INTO_W64) => { let x: M::u128x1 = ld128(m, a); let y: M::u64x2 = x.into(); st128(y, out); }
+            (T_U128X2, INTO_W32) => { let x: M::u128x2 = ld256(m, a); let y: M::u32x4x2 = x.into(); st256(y, out); }
+            (T_U128X2, INTO_W64) => { let x: M::u128x2 = ld256(m, a); let y: M::u64x2x2 = x.into(); st256(y, out); }
+            (T_U128X4, INTO_W32) => { let x: M::u128x4 = ld512(m, a); let y: M::u32x4x4 = x.into(); st512(y, out); }
+            (T_U128X4, INTO_W64) => { let x: M::u128x4 = ld512(m, a); let y: M::u64x2x4 = x.into(); st512(y, out); }
+            _ => return None,
+        }
+        Some(0)
+    }
     #[target_feature(enable = "sse2")]
     pub unsafe fn sse2(ty: u32, op: u32, a: &[u8; 64], b: &[u8; 64], c: &[u8; 64], d: &[u8; 64], i: u32, out: &mut [u8; 256]) -> u32 {
+        if let Some(r) = conv(SSE2::instance(), ty, op, a, out) {
+            return r;
+        }
         vecop(SSE2::instance(), ty, op, a, b, c, d, i, out)
     }
     #[target_feature(enable = "ssse3")]
     pub unsafe fn ssse3(ty: u32, op: u32, a: &[u8; 64], b: &[u8; 64], c: &[u8; 64], d: &[u8; 64], i: u32, out: &mut [u8; 256]) -> u32 {
+        if let Some(r) = conv(SSSE3::instance(), ty, op, a, out) {
+            return r;
+        }
         vecop(SSSE3::instance(), ty, op, a, b, c, d, i, out)
     }
     #[target_feature(enable = "sse4.1")]
     #[target_feature(enable = "ssse3")]
     pub unsafe fn sse41(ty: u32, op: u32, a: &[u8; 64], b: &[u8; 64], c: &[u8; 64], d: &[u8; 64], i: u32, out: &mut [u8; 256]) -> u32 {
+        if let Some(r) = conv(SSE41::instance(), ty, op, a, out) {
+            return r;
+        }
         vecop(SSE41::instance(), ty, op, a, b, c, d, i, out)
     }
     #[target_feature(enable = "avx")]
     #[target_feature(enable = "sse4.1")]
     #[target_feature(enable = "ssse3")]
     pub unsafe fn avx(ty: u32, op: u32, a: &[u8; 64], b: &[u8; 64], c: &[u8; 64], d: &[u8; 64], i: u32, out: &mut [u8; 256]) -> u32 {
+        if let Some(r) = conv(AVX::instance(), ty, op, a, out) {
+            return r;
+        }
         vecop(AVX::instance(), ty, op, a, b, c, d, i, out)
     }
     #[target_feature(enable = "avx2")]
     pub unsafe fn avx2(ty: u32, op: u32, a: &[u8; 64], b: &[u8; 64], c: &[u8; 64], d: &[u8; 64], i: u32, out: &mut [u8; 256]) -> u32 {
+        if let Some(r) = conv(AVX2::instance(), ty, op, a, out) {
+            return r;
+        }
         vecop(AVX2::instance(), ty, op, a, b, c, d, i, out)
     }
     #[target_feature(enable = "sse2")]
